@@ -85,7 +85,7 @@ def env():
 
 ERR = {'ValueError': 'EValue', 'KeyError': 'EKey', 'IndexError': 'EIndex', 'TypeError': 'EType',
        'ZeroDivisionError': 'EZeroDiv', 'RuntimeError': 'ERuntime', 'InfeasibleRegion': 'EInfeasible',
-       'UndefinedPhase': 'EUndefPhase', 'DimensionError': 'EDim', 'FloatingPointError': 'EZeroDiv'}
+       'UndefinedPhase': 'EUndefPhase', 'DimensionError': 'EDim', 'DimensionalityError': 'EDim', 'FloatingPointError': 'EZeroDiv'}
 def err_of(ex):
     return ERR.get(type(ex).__name__, 'EOther')
 
@@ -106,7 +106,7 @@ def gen_stream(rng):
 
 OPKINDS = (['read'] * 5 + ['F'] * 2 + ['get_flow'] * 3 + ['get_total'] * 2 + ['set'] * 6 + ['set_flow'] * 4 + ['set_total'] * 2
            + ['setF'] * 2 + ['T'] * 3 + ['P'] * 2 + ['phase'] * 4 + ['phases'] * 3 + ['link'] * 4 + ['unlink'] * 3
-           + ['copy_like'] * 3 + ['thermo'] * 2 + ['rtrip'] * 1 + ['alias'] * 2)
+           + ['copy_like'] * 3 + ['thermo'] * 2 + ['rtrip'] * 1 + ['alias'] * 2 + ['get_data'] * 3 + ['set_data'] * 2 + ['assign'] * 3 + ['copy_row'] * 2)
 
 def gen_op(rng):
     k = rng.choice(OPKINDS)
@@ -134,7 +134,89 @@ def gen_op(rng):
     if k == 'thermo': return [k, i, rng.randrange(2)]
     if k == 'rtrip': return [k, i, rng.randrange(2)]
     if k == 'alias': return [k, i]
+    if k == 'get_data': return [k, i, view, rng.randrange(8), ph, chem]
+    if k == 'set_data': return [k, i, view, rng.randrange(8), ph, chem, val]
+    if k == 'assign': return [k, i, j, view]
+    if k == 'copy_row': return [k, i, view, ph, rng.randrange(8)]
     raise ValueError(k)
+
+def gen_units_case(rng, u, view):
+    """the units objects keep conversion factors between calls: a unit string is first converted legitimately (by the
+    stream API or by the view of its own dimension), then asked of the view `view` (right or wrong dimension)"""
+    streams = [gen_stream(rng) for _ in range(2)]
+    i = rng.randrange(2)
+    chem = rng.choice(['A_', 'B_', 'C_'])
+    own = ['mol', 'mol', 'mass', 'mass', 'mass', 'vol', 'vol', 'vol'][u]
+    warm = rng.choice([['get_flow', i, u, 0, chem], ['get_total', i, u], ['get_data', i, own, u, 0, chem],
+                       ['set_flow', i, u, 0, chem, float(rng.choice(VALS[1:]))]])
+    ops = [warm]
+    ops.append(['get_data', rng.randrange(2), view, u, rng.randrange(4), chem])
+    ops.append(['set_data', rng.randrange(2), view, u, rng.randrange(4), chem, float(rng.choice(VALS[1:]))])
+    ops.append(['read', i, rng.choice(['mol', 'mass', 'vol'])])
+    ops.append(['get_data', i, own, u, 0, chem])
+    rng.shuffle(ops[1:])
+    return {'streams': streams, 'ops': ops}
+
+def gen_viewcopy_case(rng):
+    """a view is written with another view as the value (s1.vol = s2.vol, ms.ivol['g'] = ms.ivol['l']) between streams /
+    phases at different T, P, phase; reads on both sides before and after"""
+    pkg = 0 if rng.random() < 0.7 else 1
+    n = len(PKGS[pkg])
+    def row():
+        r = [float(rng.choice([0, 1, 2, F(1, 2), 3, 8])) for _ in range(n)]
+        if pkg == 1: r[2] = 0.
+        return r
+    view = rng.choice(['vol', 'vol', 'vol', 'mass', 'mol'])
+    if rng.random() < 0.6:
+        p1, p2 = rng.sample(['l', 'g', 's', 'L'], 2) if rng.random() < 0.7 else ['l', 'l']
+        T1, T2 = rng.sample(TS[:4], 2)
+        streams = [{'kind': 'S', 'pkg': pkg, 'phase': p1, 'T': T1, 'P': rng.choice(PS[:3]), 'flow': row()},
+                   {'kind': 'S', 'pkg': pkg, 'phase': p2, 'T': T2, 'P': rng.choice(PS[:3]), 'flow': row()}]
+        a, b = rng.sample([0, 1], 2)
+        ops = [['read', x, view] for x in rng.sample([a, b], rng.choice([0, 1, 2]))]
+        if rng.random() < 0.25:
+            ops.append(['link', a, b, rng.random() < 0.5, rng.random() < 0.5, rng.random() < 0.5])
+        ops += [['assign', a, b, view], ['read', a, view], ['read', b, view], ['F', a, view]]
+        if rng.random() < 0.5:
+            ops += [['T', b, rng.choice(TS)], ['assign', b, a, view], ['read', b, view]]
+    else:
+        phases = sorted(rng.sample(['g', 'l', 's', 'L'], rng.choice([2, 3])))
+        streams = [{'kind': 'M', 'pkg': pkg, 'phases': phases, 'T': rng.choice(TS[:4]), 'P': rng.choice(PS[:3]),
+                    'flow': [row() for _ in phases]}, gen_stream(rng)]
+        r1, r2 = rng.sample(range(len(phases)), 2)
+        ops = [['read', 0, view]] if rng.random() < 0.5 else []
+        ops += [['copy_row', 0, view, r1, r2], ['read', 0, view], ['F', 0, view]]
+        if rng.random() < 0.5:
+            ops += [['P', 0, rng.choice(PS)], ['copy_row', 0, view, r2, r1], ['read', 0, view]]
+    return {'streams': streams, 'ops': ops}
+
+def gen_memo_case(rng):
+    """the stream keeps the mixture molar volume between calls: F_vol / get_total_flow in volumetric units is read, then
+    material moves between the phases of a MultiStream while T, P, the phases and the OVERALL composition stay the same
+    (one chemical only, or two phases exchanging their contents), then it is read again and a total is written"""
+    pkg = 0
+    phases = sorted(rng.sample(['g', 'l', 's', 'L'], rng.choice([2, 2, 3])))
+    T, P = rng.choice(TS[:4]), rng.choice(PS[:3])
+    vread = lambda: rng.choice([['F', 0, 'vol'], ['get_total', 0, rng.choice([5, 6, 7])]])
+    if rng.random() < 0.6:
+        c = rng.randrange(3); chem = PKGS[0][c]
+        flow = [[0., 0., 0.] for _ in phases]
+        for r in flow: r[c] = float(rng.choice([1, 2, F(1, 2), 3, 8]))
+        ops = [vread()]
+        for _ in range(rng.randint(1, 3)):
+            ops.append(rng.choice([['set', 0, rng.choice(['mol', 'mass', 'vol']), rng.randrange(8), chem, float(rng.choice(VALS[1:7]))],
+                                   ['set_flow', 0, rng.randrange(8), rng.randrange(8), chem, float(rng.choice(VALS[1:7]))]]))
+            ops.append(vread())
+    else:
+        a = [float(rng.choice([1, 2, 3, 8])) for _ in range(3)]; b = [float(rng.choice([0, 1, F(1, 2), 2])) for _ in range(3)]
+        flow = [a, b] + [[0., 0., 0.] for _ in phases[2:]]
+        ops = [vread()]
+        for c, chem in enumerate(PKGS[0]):
+            ops.append(['set', 0, 'mol', 0, chem, b[c]]); ops.append(['set', 0, 'mol', 1, chem, a[c]])
+        ops.append(vread())
+    ops.append(rng.choice([['set_total', 0, rng.choice([5, 6, 7]), float(rng.choice([1, 8, 4096]))], ['setF', 0, 'vol', 8.0]]))
+    ops += [vread(), ['read', 0, 'vol']]
+    return {'streams': [{'kind': 'M', 'pkg': pkg, 'phases': phases, 'T': T, 'P': P, 'flow': flow}, gen_stream(rng)], 'ops': ops}
 
 def gen_link_case(rng, flags):
     """partial/full link between two single-phase streams of one package that are in DIFFERENT phases, with view reads and
@@ -173,12 +255,20 @@ def gen_link_case(rng, flags):
 ALL_FLAGS = [[f, p, t] for f in (True, False) for p in (True, False) for t in (True, False)]
 
 def gen_cases(rng, tier):
-    n = 200 if tier == 'quick' else 4400
+    n = 150 if tier == 'quick' else 3600
     m = 5 if tier == 'quick' else 75            # link scenarios per flag subset
     cases = []
     for flags in ALL_FLAGS:
         for _ in range(m):
             cases.append(gen_link_case(rng, flags))
+    for u in range(8):                          # every unit string x the three views (right and wrong dimension)
+        for view in ('mol', 'mass', 'vol'):
+            for _ in range(1 if tier == 'quick' else 6):
+                cases.append(gen_units_case(rng, u, view))
+    for _ in range(24 if tier == 'quick' else 300):
+        cases.append(gen_viewcopy_case(rng))
+    for _ in range(16 if tier == 'quick' else 200):
+        cases.append(gen_memo_case(rng))
     for _ in range(n):
         streams = [gen_stream(rng) for _ in range(rng.choice([2, 2, 3]))]
         ops = [gen_op(rng) for _ in range(rng.randint(4, 16))]
@@ -341,6 +431,30 @@ def apply_op(store, op):
     if k == 'thermo':
         res = ['thermo', i, op[2]]
         return res, run(lambda: s._reset_thermo(e['thermos'][op[2]]))
+    if k in ('get_data', 'set_data'):
+        key, r, c = key_of(s, op[4], op[5])
+        ind = lambda: getattr(s, 'i' + op[2])
+        if k == 'get_data':
+            res = ['get_data', i, op[2], op[3], r, c]
+            return res, run(lambda: [[fr_json(frac(ind().get_data(UNITS[op[3]], key)))]])
+        res = ['set_data', i, op[2], op[3], r, c, op[6]]
+        return res, run(lambda: ind().set_data(op[6], UNITS[op[3]], key))
+    if k == 'assign':
+        j = op[2] % n
+        o = store[j]
+        if i == j or is_multi(s) or is_multi(o) or pkg_of(s) != pkg_of(o):
+            return ['skip'], None
+        res = ['assign', i, j, op[3]]
+        return res, run(lambda: setattr(s, op[3], getattr(o, op[3])))
+    if k == 'copy_row':
+        if not is_multi(s):
+            return ['skip'], None
+        phases = s._imol._phases
+        r1, r2 = op[3] % len(phases), op[4] % len(phases)
+        res = ['copy_row', i, op[2], r1, r2]
+        def f():
+            getattr(s, 'i' + op[2])[phases[r1]] = getattr(s, 'i' + op[2])[phases[r2]]
+        return res, run(f)
     if k == 'rtrip':
         # what Reaction.__call__ does around a stream of another package: reset_chemicals(new) ... reset_chemicals(old, container)
         res = ['rtrip', i, op[2]]
@@ -414,6 +528,10 @@ def cop(o):
     if k == 'copy_like': return f'(OCopyLike {cnat(o[1])} {cnat(o[2])})'
     if k == 'thermo': return f'(OThermo {cnat(o[1])} {cnat(o[2])})'
     if k == 'rtrip': return f'(ORoundTrip {cnat(o[1])} {cnat(o[2])})'
+    if k == 'get_data': return f'(OGetData {cnat(o[1])} {VIEW[o[2]]} {cnat(o[3])} {cnat(o[4])} {cnat(o[5])})'
+    if k == 'set_data': return f'(OSetData {cnat(o[1])} {VIEW[o[2]]} {cnat(o[3])} {cnat(o[4])} {cnat(o[5])} {q(o[6])})'
+    if k == 'assign': return f'(OAssignView {cnat(o[1])} {cnat(o[2])} {VIEW[o[3]]})'
+    if k == 'copy_row': return f'(OCopyRow {cnat(o[1])} {VIEW[o[2]]} {cnat(o[3])} {cnat(o[4])})'
     raise ValueError(k)
 
 def cmat(m):
@@ -458,7 +576,7 @@ def coq_show(case, out):
     return f'(show_case {cutab()} {clist(case["streams"], cinit)} {clist(out["ops"], cop)})'
 
 STRUCT = ('T', 'P', 'phase', 'phases', 'link', 'unlink', 'copy_like', 'thermo', 'rtrip')
-WRITES = ('set', 'set_flow', 'set_total', 'setF')
+WRITES = ('set', 'set_flow', 'set_total', 'setF', 'set_data', 'assign', 'copy_row')
 def nontrivial(case, out):
     ok = [o[0] for o, b in zip(out.get('ops', []), out.get('obs', [])) if not (isinstance(b, str))]
     return any(k in STRUCT for k in ok) and any(k in WRITES for k in ok)
@@ -528,6 +646,18 @@ def oracle(case):
         if k in ('set_total', 'setF'):
             d = np.asarray(s._imol.data.to_array(), float).reshape(-1)
             before = d / d.sum() if d.sum() else None
+        want = None
+        try:            # the value about to be written through a view, when it is itself a view
+            if k == 'assign':
+                o = store[op[2] % len(store)]
+                if not (s is o or is_multi(s) or is_multi(o) or pkg_of(s) != pkg_of(o) or s._imol.data.dct is o._imol.data.dct):
+                    want = np.asarray(getattr(o, op[3]).to_array(), float).copy()
+            if k == 'copy_row' and is_multi(s):
+                phs_ = s._imol._phases
+                if op[3] % len(phs_) != op[4] % len(phs_):
+                    want = np.asarray(getattr(s, 'i' + op[2])[phs_[op[4] % len(phs_)]].to_array(), float).copy()
+        except Exception as ex:
+            return f'{where}: reading the source view raised {type(ex).__name__}: {ex}'
         try:
             res, obs = apply_op(store, op)
         except Exception as ex:
@@ -540,6 +670,14 @@ def oracle(case):
                     return f'{where}: wrong-dimension unit {UNITS[op[2]]} raised {type(ex).__name__}, not DimensionError'
                 if dim_ok and type(ex).__name__ == 'DimensionError':
                     return f'{where}: unit {UNITS[op[2]]} rejected'
+            if k in ('get_data', 'set_data'):
+                dim_ok = e['utab'][op[3]][0] == op[2]
+                if dim_ok:
+                    return f'{where}: i{op[2]}.{k} in {UNITS[op[3]]} raised {type(ex).__name__}: {ex}'
+                if type(ex).__name__ != 'DimensionalityError':
+                    return f'{where}: wrong-dimension unit {UNITS[op[3]]} for i{op[2]} raised {type(ex).__name__}, not DimensionalityError'
+            if k in ('assign', 'copy_row'):
+                return f'{where}: raised {type(ex).__name__}: {ex}'
             if k in ('read', 'F', 'alias', 'get_flow', 'get_total'):
                 if not (k in ('get_flow', 'get_total') and e['utab'][op[2]][1] is None):
                     return f'{where}: reading raised {type(ex).__name__}: {ex}'
@@ -550,6 +688,24 @@ def oracle(case):
             s = store[res[1]]
             if k in ('get_flow', 'set_flow', 'get_total', 'set_total') and e['utab'][op[2]][1] is None:
                 return f'{where}: wrong-dimension unit {UNITS[op[2]]} was accepted'
+            if k in ('get_data', 'set_data'):
+                name, fac = e['utab'][op[3]]
+                if name != op[2]:
+                    return f'{where}: dimensionally inconsistent unit {UNITS[op[3]]} was accepted by i{op[2]}.{k}'
+                key, r, c = key_of(s, op[4], op[5])
+                got = getattr(s, 'i' + op[2]).get_data(UNITS[op[3]], key)
+                if k == 'set_data':
+                    if not close(got, op[6]): return f'{where}: i{op[2]}.set_data({op[6]}, {UNITS[op[3]]}), get_data gives {got}'
+                elif not close(got, float(fac) * getattr(s, 'i' + op[2])[key]):
+                    return f'{where}: i{op[2]}.get_data({UNITS[op[3]]}) = {got}, factor * view = {float(fac) * getattr(s, "i" + op[2])[key]}'
+            if k == 'assign' and want is not None:
+                got = np.asarray(getattr(s, op[3]).to_array(), float)
+                if not all(close(a, b) for a, b in zip(got, want)):
+                    return f'{where}: wrote {want.tolist()} through {op[3]} (another stream\'s {op[3]} view), read back {got.tolist()}'
+            if k == 'copy_row' and want is not None:
+                got = np.asarray(getattr(s, 'i' + op[2])[s._imol._phases[res[3]]].to_array(), float)
+                if not all(close(a, b) for a, b in zip(got, want)):
+                    return f'{where}: wrote {want.tolist()} to i{op[2]}[{s._imol._phases[res[3]]}] (a row of the same view), read back {got.tolist()}'
             if k == 'set' and op[5] != 0:
                 key, r, c = key_of(s, op[3], op[4])
                 got = getattr(s, 'i' + op[2])[key]
